@@ -1,5 +1,7 @@
 package fpgo
 
+import "errors"
+
 // Reference arithmetic for C02, in plain Go on (sign, magnitude) pairs so that it is exact for every
 // source/target combination, runs under the symbolic engine and natively (replay) alike.
 
@@ -169,3 +171,6 @@ func vh_C02_SpecialStrings() {
 	}
 	vfReach("end")
 }
+
+// c02Is: err is target or wraps it ("fails with ErrConversionUnsupported" does not forbid adding context with %w)
+func c02Is(err, target error) bool { return errors.Is(err, target) }
